@@ -1011,7 +1011,10 @@ fn title_case(text: &str) -> i32 {
     for w in &words {
         let mut cap: Vec<char> = w.to_lowercase().chars().collect();
         cap[0] = cap[0].to_ascii_uppercase();
-        for stored in [w.clone(), w.to_lowercase(), w.to_uppercase(), cap.iter().collect::<String>()] {
+        // .. and the "stylised" spelling: lower-case initial, capitals inside (eBay, macOS)
+        let mut styl: Vec<char> = w.to_uppercase().chars().collect();
+        styl[0] = styl[0].to_ascii_lowercase();
+        for stored in [w.clone(), w.to_lowercase(), w.to_uppercase(), cap.iter().collect::<String>(), styl.iter().collect::<String>()] {
             for flags in 0..8 {
                 let mut md = WordMetadata::default();
                 if flags & 1 != 0 { md.noun = Some(NounData { is_proper: Some(true), ..Default::default() }); }
